@@ -49,7 +49,13 @@ def symptom(r):
 
 
 def run(ctx):
-    gen = ctx.tlc("CacheGen", cfg="CacheGen_%s.cfg" % ctx.tier, workers=1, name="gen", timeout=1800)
+    with cf.ThreadPoolExecutor(max_workers=2) as ex:
+        # compile the driver while TLC enumerates the scenarios
+        warm = ex.submit(ctx.go_test, "internal/repository", "^TestVerif_C38Build$", timeout=1500,
+                         out=os.path.join(ctx.work, "gobuild"))
+        gen = ctx.tlc("CacheGen", cfg="CacheGen_%s.cfg" % ctx.tier, workers=1, name="gen", timeout=1800)
+        warm.result()
+        ctx.go_results.clear()
     scripts = open(os.path.join(gen["dir"], "vec_script.ndjson")).read().splitlines()
     concs = open(os.path.join(gen["dir"], "vec_conc.ndjson")).read().splitlines()
     rnd = random.Random(ctx.seed * 7919 + 38)
@@ -94,6 +100,7 @@ def run(ctx):
            "bounds": {"script_steps": 5 if ctx.thorough() else 4, "schedule_steps": 5 if ctx.thorough() else 4}}
     return verif.finish(ctx, "fault_enumeration", cov, [
         "Cache.tla is the oracle: verified loads return the repository's bytes or fail; the first damaged copy a process meets is replaced by a good one; listing drops stale copies; restic itself never leaves a bad file under the final name; unverified backend-level reads are judged only while nobody corrupted the cache",
+        "reads that never fill the cache (listPack and checkPack use a plain pack handle) must at least remove the damaged copy they met; checkPack reports the failed first attempt as an error by design ('check successful on second attempt'); a Forget that found nothing to delete (load retried while nothing was cached) does not use up the single eviction; when the re-download itself hits the injected transient error the load may fail",
         "second and later damage of the same file within one process may end in an error (documented circuit breaker: a cached file is deleted at most once per run)",
         "a file deleted from the repository may still be served from the cache until the type is listed (content addressed: same bytes)",
         "damage is placed inside the byte range the operation reads; positions and truncation lengths are seeded",
